@@ -5,6 +5,7 @@
    executing every script (harness/props/c16.py). *)
 From XV Require Import Prelude Grid Perm Runner Batch Crop Script GenTemplates BridgeTemplates
      GridProofs PermProofs RunnerProofs BatchProofs AssocProofs CropProofs ReapProofs ProgressProofs ScriptProofs.
+From XV Require Sched GenPublish BridgePublish.
 From Coq Require Import Permutation.
 Open Scope Z_scope.
 
@@ -185,6 +186,12 @@ Example C16_example_hypothesis_needed :
   tasks_grown (gen_select SGE MSingle ArgNone 0 [2] 3) [2] <> intended None 0 [2] 3.
 Proof. vm_compute. discriminate. Qed.
 
+(* a batch's result file holds the results in the order of the batch's settings, with or without a worker
+   pool: `grow` evaluates every case, collects the futures in submission order and writes once (GenPublish) *)
+Theorem C16_grow_keeps_batch_order : GenPublish.gen_grow_shape = Sched.grow_shape_model.
+Proof. exact BridgePublish.bridge_grow_shape. Qed.
+
+Print Assumptions C16_grow_keeps_batch_order.
 Print Assumptions C16_tasks_exact.
 Print Assumptions C16_int_spelling.
 Print Assumptions C16_array_range.
